@@ -134,6 +134,11 @@ func (m *MatchField) MarshalBinary() (data []byte, err error) {
 	data[n] = m.Length
 	n += 1
 
+	if m.ExperimenterID != 0 {
+		binary.BigEndian.PutUint32(data[n:], m.ExperimenterID)
+		n += 4
+	}
+
 	b, err := m.Value.MarshalBinary()
 	copy(data[n:], b)
 	n += len(b)
